@@ -28,6 +28,41 @@ def s_run(ctx, shape, oracle, opts=None):
     ORACLES[oracle](ctx, shape, info, rows, durations, opts, df, sysobj)
 
 
+def s_real_loop(ctx, shape, oracle, opts=None):
+    """Feed-forward shapes only: the REAL solver loop from the REAL initial iterate (no arbitrary-iterate abstraction, so the
+    level-by-level propagation of off-states and voltages is exercised as it really happens), then the same oracle."""
+    opts = dict(opts or {})
+    sysobj, info, durations = sysh.build_system(ctx, shape)
+    import sysloss.components as C
+    from .. import shims
+
+    old_w = C._Component._solv_get_warns
+    C._Component._solv_get_warns = lambda self_, *a, **k: ""
+    if ctx.symbolic:
+        # "converged" = exactly stationary (a feed-forward tree settles exactly); what the tolerance predicate admits for
+        # tiny parameter values is C03's subject
+        shims.ALLCLOSE_MODE[0], shims.ALLCLOSE_HOOK[0] = "exact", None
+    kw = {"phase": opts["phase"]} if "phase" in opts else {}
+    try:
+        df = sysobj.solve(maxiter=2 * sysh.depth_of(shape) + 3, **kw)
+    except RuntimeError as e:
+        if "Steady-state" in str(e):
+            ctx.fail("feed-forward-tree-converges", info={"shape": [n["name"] for n in shape["nodes"]]})
+            return
+        raise
+    except ValueError as e:
+        if "Unstable" in str(e):
+            ctx.note("unstable")
+            return
+        raise
+    finally:
+        C._Component._solv_get_warns = old_w
+        if ctx.symbolic:
+            shims.ALLCLOSE_MODE[0] = "exact"
+    ctx.cover("solved")
+    ORACLES[oracle](ctx, shape, info, sysh.table_rows(df), durations, opts, df, sysobj)
+
+
 def sel_terms(info, name, rows):
     """Selected-input terms of a mux row: (vin term, rs term, parent index conds, none cond)."""
     P = info[name]["P"]
